@@ -110,13 +110,18 @@ def build(ctx, evo):
                 raise Skip("inconclusive", "diff-failed", {"rc": rc, "stderr": err[-600:], "stdout": out[-300:], "hcl": L.hcl(model), "step": i})
             os.rename(os.path.join(mig, new[0]), os.path.join(mig, name))
             text = open(os.path.join(mig, name), newline="").read()
+            if st.get("inject"):
+                # review comments added to the planned file: excuse some of its destructive statements
+                text, _, _ = L.inject_nolint(text, ctx.rand("evo", evo, "inject", i))
+                with open(os.path.join(mig, name), "w", newline="") as fh:
+                    fh.write(text)
         rc, out, err = ctx.atlas_run(["migrate", "hash", "--dir", "file://migrations"], d)
         if rc != 0:
             raise Skip("inconclusive", "hash-failed", {"rc": rc, "stderr": err[-600:]})
         relaxed = sorted({op["t"] for op in st["ops"] if op["op"] == "drop_cols_rebuild_variant"})
         files.append({"name": name, "text": text, "writer": st["writer"], "cls": L.file_class(st["ops"]) if i else st["kind"],
                       "kind": st["kind"], "ops": [L.op_label(o) for o in st["ops"]], "relaxed": relaxed, "model_after": model.facts()})
-        if st.get("focus") and len(st["ops"]) > 1:
+        if (st.get("focus") and len(st["ops"]) > 1) or st["kind"].startswith("nolint_"):
             files[-1]["cls"] = st["kind"]
     # the model must describe what the files really do (independent engine); for hand-written files a
     # mismatch is a bug of this monitor, for atlas-written ones the diff did not converge (not C18's business)
@@ -157,9 +162,22 @@ def judge_file(f, rec, diags):
     """Compare the DS1xx diagnostics of one file with what the facts demand (rec = L.track_file record).
     Returns (problems, observed, details) where problems = [(key, what)] and observed is a digestable summary."""
     stmts, groups, before, after = rec["stmts"], rec["groups"], rec["before"], rec["after"]
+    text = f["text"]
+    frules = L.file_nolint(text)
+    ignored = frules == [[]]  # a single bare file directive: the file is not analysed at all
+
+    def is_excused(code, i):
+        return ignored or L.excused(code, frules + L.stmt_nolint(text, stmts[i]))
+    # nolint: the statement lint reports on is the DROP TABLE, the ALTER .. DROP COLUMN, or the first statement
+    # (CREATE) of a rebuild group; a table removed through renames is reported on its first RENAME
+    exc_t = {e["t"]: e for e in rec["tables"] if is_excused("DS102", e["stmts"][0])}
+    exc_c = {(t, c): cause for t, c, cause in rec["columns"] if is_excused("DS103", cause[0])}
+    all_t, all_c = rec["tables"], rec["columns"]
+    rec = dict(rec, tables=[e for e in all_t if e["t"] not in exc_t], columns=[x for x in all_c if (x[0], x[1]) not in exc_c])
     exp_t = [e["t"] for e in rec["tables"]]
     exp_c = [(t, c) for t, c, _ in rec["columns"]]
     virt = rec["virtual"]
+    exc_alias = {n: e["t"] for e in exc_t.values() for n in e["names"]}
 
     def span(a, b):
         return [(stmts[a].region, stmts[b].end)]
@@ -191,6 +209,8 @@ def judge_file(f, rec, diags):
                 covered_t[t] += 1
                 if not inside(pos, t_span[t]):
                     problems.append(("pos|DS102|%s|%s" % (cls, writer), "DS102 for table %r at Pos %r which is not inside a statement that (renames and) drops it (%r)" % (t, pos, t_span[t])))
+            elif t in exc_alias:
+                problems.append(("nolint|DS102-reported-despite-directive", "table %r is dropped by a statement excused by an atlas:nolint directive (file rules %r) yet DS102 is reported at Pos %r" % (t, frules, pos)))
             elif t in relaxed and inside(pos, g_span.get(t, [])):
                 # non-canonical hand-written rebuild: a destructive diagnostic inside the group is what the statement asks for
                 mine = [tc for tc in covered_c if tc[0] == t and inside(pos, c_span[tc])]
@@ -213,6 +233,10 @@ def judge_file(f, rec, diags):
                 hit = [tc for tc in covered_c if tc[1] == c and inside(pos, c_span[tc])]
                 if hit:
                     covered_c[hit[0]] += 1
+                    continue
+                exd = [tc for tc in exc_c if tc[1] == c and inside(pos, span(*exc_c[tc]))]
+                if exd:
+                    problems.append(("nolint|DS103-reported-despite-directive", "column %s.%s is dropped by a statement excused by an atlas:nolint directive (file rules %r) yet DS103 is reported at Pos %r" % (exd[0][0], c, frules, pos)))
                     continue
                 elsewhere = [tc for tc in covered_c if tc[1] == c]
                 if elsewhere:
@@ -264,10 +288,16 @@ def judge_file(f, rec, diags):
     renamed = sorted(e["t"] for e in rec["tables"] if len(e["names"]) > 1)
     observed = {"cls": cls, "writer": writer, "exp_tables": len(exp_t), "exp_cols": len(exp_c), "virt": len(virt),
                 "readded": len(readded), "recreated": len(recreated), "renamed": len(renamed),
+                "nolint": [sorted(map(tuple, frules)), len(exc_t) + len(exc_c), len(all_t) + len(all_c)],
                 "after_rename": sorted({stmts[g[4] + 1].kind for g in groups if g[5] and g[4] + 1 < len(stmts)}),
                 "diags": sorted((d.get("Code"), len(L.diag_names(d.get("Text") or ""))) for d in diags),
                 "groups": sorted((g[5],) for g in groups), "nstmts": min(len(stmts), 11)}
-    return problems, observed, (exp_t, exp_c, virt, groups, stmts, readded, recreated, renamed)
+    nol = None
+    if frules or any(L.stmt_nolint(text, x) for x in stmts):
+        n_all, n_exc = len(all_t) + len(all_c), len(exc_t) + len(exc_c)
+        nol = "%s|%s-of-the-destructive-statements-excused" % ("file-level" if frules else "statement-level",
+                                                                "none" if n_exc == 0 else ("all" if n_exc == n_all else "some"))
+    return problems, observed, (exp_t, exp_c, virt, groups, stmts, readded, recreated, renamed, nol)
 
 
 def wclass(n, total):
@@ -302,6 +332,9 @@ def judge_window(ctx, case, n, rc, rep, out, err, verbose=False):
     for i in window:
         f = files[i]
         frs = byname.get(f["name"], [])
+        if not frs and L.file_nolint(f["text"]) == [[]]:
+            ctx.count("nolint|file-skipped-entirely-by-bare-file-directive")
+            frs = [{"Name": f["name"], "Reports": []}]
         if len(frs) != 1:
             ctx.inconclusive("file-not-reported")
             continue
@@ -311,7 +344,9 @@ def judge_window(ctx, case, n, rc, rep, out, err, verbose=False):
         diags = [d for r in (fr.get("Reports") or []) for d in (r.get("Diagnostics") or []) if str(d.get("Code", "")).startswith("DS1")]
         other = [d.get("Code") for r in (fr.get("Reports") or []) for d in (r.get("Diagnostics") or []) if not str(d.get("Code", "")).startswith("DS1")]
         any_ds = any_ds or bool(diags)
-        problems, observed, (exp_t, exp_c, virt, groups, stmts, readded, recreated, renamed) = judge_file(f, recs[i], diags)
+        problems, observed, (exp_t, exp_c, virt, groups, stmts, readded, recreated, renamed, nol) = judge_file(f, recs[i], diags)
+        if nol:
+            ctx.count("nolint|%s|%s" % (nol, f["writer"]))
         first_path = (i == 0 and n >= total and len(stmts) > 10)
         observed["first_path"] = first_path
         ctx.eval(vlib.digest(observed), True)
@@ -430,7 +465,7 @@ def main():
         sys.exit(2)
     if ctx.replay:
         sys.exit(replay(ctx))
-    nevo = ctx.pick(90, 400)
+    nevo = ctx.pick(110, 440)
     ctx.par(list(range(nevo)), lambda e: run_evolution(ctx, e))
     table = {}
     for k, v in ctx.counters.items():
